@@ -229,6 +229,12 @@ func (p *provEngine) prov(fd *ast.FuncDecl, e ast.Expr, out map[string]bool, see
 			}
 			return
 		}
+		switch funcFullName(calleeOf(p.info, x)) {
+		case "xreflect.Zero", "reflect.Zero":
+			// the zero value of a type is a constant: it carries no operand of the source expression
+			// (its type argument may well derive from an operand's type)
+			return
+		}
 		switch f := unparen(x.Fun).(type) {
 		case *ast.SelectorExpr:
 			if _, isPkg := p.info.Uses[identOf(f.X)].(*types.PkgName); !isPkg {
